@@ -68,6 +68,15 @@ class C19:
             expected = self.int_expected(rng, pts, knees, mode)
             cases.append({'points': pts, 'family': 'int', 'knees': knees, 'expected': expected, 't': self.tolerance(rng, pts, knees, expected),
                           'strategy': STRATS[(k // 4) % 4], 'mode': 'int-' + mode, 'int64': rng.random() < 0.7})
+        # known finding C19:int64-square-wraparound: mse / rmse on int64 inputs with a matched pair more than 3.1e9 apart
+        # (the float64 twin of the same values is generated as an ordinary case and must agree)
+        nwrap = {'quick': 8, 'search': 0, 'thorough': 60}.get(tier, 8)
+        for k in range(nwrap):
+            w = self.wrap_case(rng, nmax)
+            cases.append(w)
+            twin = dict(w)
+            twin.update(int64=False, mode='wrap-float-twin', wrap=False)
+            cases.append(twin)
         # same-object multi-call sequences
         nseq = {'quick': 110, 'search': 60, 'thorough': 2500}.get(tier, 110)
         for k in range(nseq):
@@ -110,6 +119,67 @@ class C19:
         if rng.random() < 0.3:
             rng.shuffle(e)
         return e
+
+    def wrap_case(self, rng, nmax):
+        n = rng.randint(4, max(4, min(nmax, 10)))
+        base = rng.choice([3500000000, 4000000000, 5000000000, 2 ** 33, 2 ** 35])
+        x = rng.choice([0, 5, 2 ** 20, 2 ** 39])
+        pts = []
+        y = rng.randint(10 ** 3, 10 ** 6)
+        for _ in range(n):
+            pts.append([float(x), float(y)])
+            x += base * rng.choice([1, 1, 2])
+            y = max(0, y - rng.randint(0, max(1, y // 2)))
+        nk = rng.randint(1, max(1, (n - 1) // 2))
+        knees = sorted(rng.sample(range(n), nk))
+        others = [i for i in range(n) if i not in knees]
+        # every expected point is a curve point that is NOT a knee: its nearest knee is at least one stride (>= 3.5e9) away
+        exp = [list(pts[i]) for i in rng.sample(others, rng.randint(1, min(len(others), nk + 1)))]
+        steps = [{'points': pts, 'knees': knees, 'expected': exp, 'fn': rng.choice(['mse', 'rmse']), 'strategy': rng.choice(STRATS), 't': 0.01}
+                 for _ in range(rng.randint(1, 2))]
+        return {'kind': 'seq', 'steps': steps, 'int64': True, 'wrap': True, 'mode': 'wrap-int64', 'family': 'seq'}
+
+    # ---- the known finding C19:int64-square-wraparound (known_findings.json): matched ONLY for mse / rmse calls on int64 inputs
+    # in which every call has a matched pair more than 3e9 apart in a coordinate and the float64 presentation of the same values
+    # returns exactly the declarative value (mean squared nearest-neighbour error, neighbours from the oracle table)
+    @staticmethod
+    def ref_mse(st):
+        pts, kp = st['points'], [st['points'][k] for k in st['knees']]
+        ex = st['expected']
+        s = st['strategy']
+        if s == 'knees':
+            a, b = kp, ex
+        elif s == 'expected':
+            a, b = ex, kp
+        elif s == 'best':
+            a, b = (ex, kp) if len(ex) <= len(kp) else (kp, ex)
+        else:
+            a, b = (ex, kp) if len(ex) >= len(kp) else (kp, ex)
+        d = {(r[0], r[1]): r[2] for r in st['tab']}
+        err = 0.0
+        gap = 0.0
+        for i, p in enumerate(a):
+            j = min(range(len(b)), key=lambda j: d[(i, j)])
+            q = b[j]
+            dx, dy = p[0] - q[0], p[1] - q[1]
+            err += dx * dx + dy * dy
+            gap = max(gap, abs(dx), abs(dy))
+        return err / (len(a) * 2.0), gap
+
+    def finding_key(self, c):
+        try:
+            if c.get('kind') != 'seq' or not c.get('int64') or c.get('skip'):
+                return None
+            for st in c['steps']:
+                if st['fn'] not in ('mse', 'rmse') or st.get('out_float') is None:
+                    return None
+                ref, gap = self.ref_mse(st)
+                want = ref if st['fn'] == 'mse' else math.sqrt(ref)
+                if st['out_float'] != want or not gap > 3.0e9:
+                    return None
+            return 'C19:int64-square-wraparound'
+        except Exception:
+            return None
 
     # ---- same-object multi-call sequences
     @staticmethod
@@ -342,6 +412,12 @@ class C19:
             else:
                 s2, v = call(fns[st['fn']], buf, kb, eb, ev.Strategy[st['strategy']])
                 st['out'] = fnum(v) if s2 == 'ok' else None
+        if c.get('int64') and all(st['fn'] in ('mse', 'rmse') for st in steps):
+            # the float64 presentation of the same values (fresh arrays), for the known-finding gate
+            for st in steps:
+                s2, v = call(fns[st['fn']], np.array(st['points'], dtype=float), np.array(st['knees'], dtype=int),
+                             np.array(st['expected'], dtype=float), ev.Strategy[st['strategy']])
+                st['out_float'] = fnum(v) if s2 == 'ok' else None
         c['steps'] = steps
         return c
 
@@ -441,7 +517,7 @@ class C19:
             for j in range(len(st)):
                 if len(st) > 1:
                     d = dict(c)
-                    d['steps'] = [{k: v for k, v in x.items() if k not in ('out', 'tab')} for x in st[:j] + st[j + 1:]]
+                    d['steps'] = [{k: v for k, v in x.items() if k not in ('out', 'tab', 'out_float')} for x in st[:j] + st[j + 1:]]
                     out.append(d)
             return out
         pts, knees, exp = c['points'], c['knees'], c['expected']
